@@ -112,6 +112,17 @@ fn main() {
             }
             println!("{}", serde_json::to_string_pretty(&serde_json::Value::Object(out)).unwrap());
         }
+        Some("dump-expr-wiring") => {
+            // development aid: regenerate refdata/expr_wiring.json from the reviewed grammar
+            std::env::remove_var("VERIF_DIR");
+            match tables::load_grammar(&repo) {
+                Ok(g) => println!("{}", serde_json::to_string(&rules::grammar_rules::expr_wiring_of(&g).into_iter().map(|(a, b, c, d)| serde_json::json!([a, b, c, d])).collect::<Vec<_>>()).unwrap()),
+                Err(e) => {
+                    eprintln!("{}", e);
+                    std::process::exit(1)
+                }
+            }
+        }
         Some("dump-nonterminals") => {
             // development aid: regenerate refdata/nonterminals.json from the reviewed grammar
             std::env::remove_var("VERIF_DIR");
